@@ -15,6 +15,9 @@ levels, children = blocks of a set partition of the events into >= 2 blocks: n <
 each with its full outcome family.  In addition - because the first sentence of the property speaks of *the successor sets
 observed*, not only of complete outcome families - `sound` is also checked on arbitrary families of non-empty subsets:
 all 127 families over 3 events and a seeded sample of 4000 (thorough: all 32767) families over 4 events.
+And because an inference must be a function of the observed sets alone (no state carried from one event's inference to the next),
+`sound` is re-checked for ~500 (thorough ~3300) families after / before an inference over a *counted* variant of the same family
+(one event repeated in one set) in the same process.
 The inductive miner (pm4py) is an external dependency with no contract.
 """
 from __future__ import annotations
@@ -160,6 +163,41 @@ def run_family(fam: Any) -> dict[str, Any]:
     return {"violations": viol, "exact": False, "sample": None}
 
 
+def run_history(fam: Any) -> dict[str, Any]:
+    """the inferred tree is a function of the observed sets alone: another inference in the same process - here one over the same
+    event types in which one event is *repeated* (a counted successor set) - must not change what is inferred for this family, nor
+    the tree already handed out for it"""
+    from tel2puml.events import EventSet
+    from tel2puml.logic_detection import calculate_logic_gates
+    sets = [sorted(s) for s in fam]
+    counted = [sets[0] + [sets[0][0]]] + sets[1:]
+    case = {"family": sets, "history": "a counted variant of the family is inferred before / after"}
+    viol = []
+    try:
+        alone = outcomes(from_process_tree(calculate_logic_gates({EventSet(x) for x in sets})))
+        if any(frozenset(x) not in alone for x in sets):
+            return {"violations": [], "exact": False, "sample": None}     # unsound even alone: reported by the plain cases
+        calculate_logic_gates({EventSet(x) for x in counted})
+        after = calculate_logic_gates({EventSet(x) for x in sets})
+        got = outcomes(from_process_tree(after))
+        missing = [x for x in sets if frozenset(x) not in got]
+        if missing:
+            viol.append({"key": "calculate_logic_gates/ensures.sound.after_another_inference",
+                         "what": f"after inferring {counted}, the tree inferred for {sets} is {show(from_process_tree(after))}, which does not admit {missing[:3]}",
+                         "case": case})
+        first = calculate_logic_gates({EventSet(x) for x in sets})
+        calculate_logic_gates({EventSet(x) for x in counted})
+        got2 = outcomes(from_process_tree(first))
+        missing2 = [x for x in sets if frozenset(x) not in got2]
+        if missing2 and not missing:
+            viol.append({"key": "calculate_logic_gates/ensures.sound.tree_changed_by_later_inference",
+                         "what": f"the tree handed out for {sets} was changed by a later inference over {counted}: now {show(from_process_tree(first))}",
+                         "case": case})
+    except Exception as e:  # noqa: BLE001
+        return {"violations": [{"key": f"calculate_logic_gates/no_raise.{type(e).__name__}", "what": f"{type(e).__name__}: {str(e)[:200]}", "case": case}], "exact": False}
+    return {"violations": viol, "exact": False, "sample": None}
+
+
 def parse(s: str) -> Any:
     """inverse of show()"""
     s = s.strip()
@@ -183,6 +221,8 @@ def _work(t: Any) -> dict[str, Any]:
     try:
         if isinstance(t, tuple) and t and t[0] == "family":
             return run_family(t[1])
+        if isinstance(t, tuple) and t and t[0] == "history":
+            return run_history(t[1])
         return run_case(t)
     except Exception as e:  # noqa: BLE001
         return {"violations": [], "harness_error": f"{type(e).__name__}: {e} {traceback.format_exc()[-600:]}", "exact": False}
@@ -199,7 +239,9 @@ def main() -> int:
     logging.disable(logging.CRITICAL)
     if a.replay:
         data = json.load(open(a.replay))
-        if "family" in data["case"]:
+        if "history" in data["case"]:
+            res = _work(("history", tuple(frozenset(x) for x in data["case"]["family"])))
+        elif "family" in data["case"]:
             res = _work(("family", tuple(frozenset(x) for x in data["case"]["family"])))
         else:
             res = _work(parse(data["case"]["tree"]))
@@ -219,6 +261,10 @@ def main() -> int:
     fams += f4
     n_fam = len(fams)
     cases += [("family", f) for f in fams]
+    hist = families(3) + f4[:300 if a.tier == "quick" else 3000] + [tuple(outcomes(t)) for t in cases if not (isinstance(t, tuple) and t and t[0] == "family")
+                                                                      and len({e for s in outcomes(t) for e in s}) <= 4]
+    n_hist = len(hist)
+    cases += [("history", f) for f in hist]
     from multiprocessing import Pool
     viol: dict[str, Any] = {}
     n = nexact = 0
@@ -233,9 +279,9 @@ def main() -> int:
             nexact += bool(res.get("exact"))
             for v in res["violations"]:
                 viol.setdefault(v["key"], v)
-            if len(samples) < 4 and res.get("sample") and res["sample"]["tree"].count("(") >= 2:
+            if len(samples) < 4 and res.get("sample") and res["sample"].get("tree", "").count("(") >= 2:
                 samples.append(res["sample"])
-    out = {"mode": "gates", "evaluations": n, "distinct_nontrivial": n, "exact_subclass_trees": nexact, "gate_trees": n - n_fam, "arbitrary_families": n_fam,
+    out = {"mode": "gates", "evaluations": n, "distinct_nontrivial": n, "exact_subclass_trees": nexact, "gate_trees": n - n_fam - n_hist, "arbitrary_families": n_fam, "history_cases": n_hist,
            "exhaustive": a.tier == "thorough", "max_events": nmax,
            "samples": samples, "violations": list(viol.values()), "seconds": round(time.time() - t0, 1), "harness_errors": errors[:3],
            "n_harness_errors": len(errors)}
